@@ -41,7 +41,8 @@ class C17(Prop):
             "seven server message types in between; in a quarter of the cases the one middleware value serves up to three "
             "connections, two at a time, that begin and end (without tidying up) during the history, so that a later "
             "connection meets whatever an earlier one left; a case is non-trivial when at "
-            "least one client message was forwarded and at least one was answered; distinct = distinct inputs")
+            "least one client message was forwarded and at least one was answered; the messages a client received are kept as handed over and must still read the same at the end of the history; "
+            "distinct = distinct inputs")
     trusted_base = COMMON_TRUSTED + [
         "the harness's sentinel protocol (a reserved CLOSE that every middleware forwards, answered by a reserved NOTICE) "
         "to know that a message has been fully processed",
